@@ -103,6 +103,43 @@ def rule_remove_precondition(ctx):
     r.floor(7)
 
 
+def rule_scan_agreement(ctx):
+    """The two body scanners (examine_brace for single statements, can_remove_braces for if-chains) decide "one statement"
+    by counting statement starts in semi_count.  A compound statement nested directly in the scanned block is one
+    statement; both scanners must count it - sibling agreement.  (examine_brace did not: `if (a) { { b(); } c(); } else d();`
+    lost its outer braces; repaired by a fix: commit.)"""
+    import re
+    db = ctx.db
+    r = ctx.rule("scan-agreement", "both body scanners of braces.cpp increment semi_count for the statement starters ';', if, else if, for, do, "
+                 "while, using and for a block nested directly in the scanned body (a CT_BRACE_OPEN/CT_BRACE_CLOSE test on a chunk of the "
+                 "body, not on the level of the opening brace itself)")
+    want = {"pc->IsSemicolon()", "pc->Is(CT_IF)", "pc->Is(CT_ELSEIF)", "pc->Is(CT_FOR)", "pc->Is(CT_DO)", "pc->Is(CT_WHILE)", "pc->Is(CT_USING_STMT)"}
+    for qn in ("examine_brace", "can_remove_braces"):
+        f = db.fn(qn, file=BR)
+        incs = [n for n in f.all_nodes() if n["k"] == "un" and n.get("op") == "++" and expr_str(f, n["a"][0]) == "semi_count"]
+        r.require(incs, "%s no longer counts statements in semi_count" % qn)
+        leaves = set()
+        nested = False
+        for n in incs:
+            r.seen()
+            for c, pol in _conds(f, n):
+                if pol is not True:
+                    continue
+                for d in c.split(" || "):
+                    d = d.strip()
+                    leaves.add(d)
+                    if "CT_BRACE_OPEN" in d and ("GetParentType() == CT_NONE" in d):
+                        nested = True
+                if c == "pc->Is(CT_BRACE_CLOSE)" and ("pc->GetLevel() == level", True) in _conds(f, n):
+                    nested = True
+        missing = sorted(want - leaves)
+        r.check(not missing, "%s/statement-starters" % qn, db.loc(f, incs[0]), "%s does not count %s as a statement start" % (qn, missing))
+        r.check(nested, "%s/nested-block-is-a-statement" % qn, db.loc(f, incs[0]),
+                "%s does not count a block nested directly in the scanned body as a statement: `{ { a(); } b(); }` is taken for one statement "
+                "and loses its braces" % qn)
+    r.floor(4)
+
+
 def rule_sort_whole_lines(ctx):
     db = ctx.db
     r = ctx.rule("sort-whole-lines", "sorting.cpp moves chunks only with Chunk::SwapLines; its deletions and those of "
@@ -137,4 +174,4 @@ def rule_sort_whole_lines(ctx):
     r.floor(6)
 
 
-RULES = [rule_effects, rule_pairing, rule_remove_precondition, rule_sort_whole_lines]
+RULES = [rule_effects, rule_pairing, rule_remove_precondition, rule_scan_agreement, rule_sort_whole_lines]
